@@ -1,4 +1,5 @@
 import WindVerif.Proofs.Generic
+import WindVerif.Proofs.GenericEq
 /-!
 # C19 — Generic sequence helpers equal their brute-force definitions
 
@@ -102,5 +103,77 @@ theorem batcherIterPair_shape (xs ys : List Int) (b : Nat) (hb : 0 < b) :
 
 /-- non-vacuity: `BatcherIter(([1,2,3], [7,8,9,10]), 2)` -/
 example : batcherIterPair [1, 2, 3] [7, 8, 9, 10] 2 = [([1, 2], [7, 8]), ([3], [9])] := by decide
+
+/-! ### sub_seq / search_sub_seq over arbitrary elements: the windows are compared with "identical or equal"
+
+Elements are object identities (`Nat`); `eqv a b` is the outcome of the elements' own `a == b`, an arbitrary relation (not
+assumed reflexive, symmetric or transitive); `pyEq eqv a b = (a == b || eqv a b)` is CPython's item comparison inside
+`list == list` (definitions in `Model/GenericEq.lean`, proofs in `Proofs/GenericEq.lean`). -/
+
+/-- `list == list`: same length and the items pairwise identical or equal -/
+theorem listEq_iff (eqv : Nat → Nat → Bool) (a b : List Nat) :
+    listEq eqv a b = true ↔
+      (a.length = b.length ∧ ∀ i (ha : i < a.length) (hb : i < b.length), pyEq eqv a[i] b[i] = true) := by
+  first | exact WindVerif.Generic.listEq_iff .. | (apply WindVerif.Generic.listEq_iff <;> assumption)
+
+/-- `sub_seq` is true iff some window of `s2` equals `s1` in that sense -/
+theorem subSeqE_iff (eqv : Nat → Nat → Bool) (s1 s2 : List Nat) :
+    subSeqE eqv s1 s2 = true ↔
+      ∃ o, o + s1.length ≤ s2.length ∧ listEq eqv s1 (windowN s2 o s1.length) = true := by
+  first | exact WindVerif.Generic.subSeqE_iff .. | (apply WindVerif.Generic.subSeqE_iff <;> assumption)
+
+/-- `search_sub_seq` raises (`ValueError`) exactly when one of the sequences is empty -/
+theorem searchSubSeqE_error_iff (eqv : Nat → Nat → Bool) (s1 s2 : List Nat) :
+    (∃ e, searchSubSeqE eqv s1 s2 = .error e) ↔ (s1 = [] ∨ s2 = []) := by
+  first | exact WindVerif.Generic.searchSubSeqE_error_iff .. | (apply WindVerif.Generic.searchSubSeqE_error_iff <;> assumption)
+
+theorem searchSubSeqE_empty (eqv : Nat → Nat → Bool) (s1 s2 : List Nat) (h : s1 = [] ∨ s2 = []) :
+    searchSubSeqE eqv s1 s2 = .error .valueError := by
+  first | exact WindVerif.Generic.searchSubSeqE_empty .. | (apply WindVerif.Generic.searchSubSeqE_empty <;> assumption)
+
+/-- … and otherwise returns exactly the `(start, end)` pairs of the matching windows, ascending, each once -/
+theorem searchSubSeqE_spec (eqv : Nat → Nat → Bool) (s1 s2 : List Nat) (h1 : s1 ≠ []) (h2 : s2 ≠ []) :
+    ∃ l, searchSubSeqE eqv s1 s2 = .ok l ∧
+      (∀ o e, (o, e) ∈ l ↔
+        (e = o + s1.length ∧ e ≤ s2.length ∧ listEq eqv s1 (windowN s2 o s1.length) = true)) ∧
+      (l.map (·.1)).Pairwise (· < ·) := by
+  first | exact WindVerif.Generic.searchSubSeqE_spec .. | (apply WindVerif.Generic.searchSubSeqE_spec <;> assumption)
+
+/-- a pattern that occurs as the same objects is always found, whatever the elements' `==` is (NaN: not equal to itself) -/
+theorem subSeqE_of_infix (eqv : Nat → Nat → Bool) (s1 s2 : List Nat) (h : s1 <:+: s2) : subSeqE eqv s1 s2 = true := by
+  first | exact WindVerif.Generic.subSeqE_of_infix .. | (apply WindVerif.Generic.subSeqE_of_infix <;> assumption)
+
+theorem searchSubSeqE_of_infix (eqv : Nat → Nat → Bool) (s s1 t : List Nat) (h1 : s1 ≠ []) :
+    ∃ l, searchSubSeqE eqv s1 (s ++ s1 ++ t) = .ok l ∧ (s.length, s.length + s1.length) ∈ l := by
+  first | exact WindVerif.Generic.searchSubSeqE_of_infix .. | (apply WindVerif.Generic.searchSubSeqE_of_infix <;> assumption)
+
+/-- for elements compared by their value (`val` = the payload of an object) the new functions are the old ones … -/
+theorem agree_with_old (val : Nat → Int) (s1 s2 : List Nat) :
+    subSeqE (fun a b => val a == val b) s1 s2 = subSeq (s1.map val) (s2.map val) ∧
+    searchSubSeqE (fun a b => val a == val b) s1 s2 = searchSubSeq (s1.map val) (s2.map val) := by
+  first | exact WindVerif.Generic.agree_with_old .. | (apply WindVerif.Generic.agree_with_old <;> assumption)
+
+/-- … and every input of the old functions is of that form -/
+theorem lists_are_images (l1 l2 : List Int) :
+    ∃ (val : Nat → Int) (s1 s2 : List Nat), s1.map val = l1 ∧ s2.map val = l2 := by
+  first | exact WindVerif.Generic.lists_are_images .. | (apply WindVerif.Generic.lists_are_images <;> assumption)
+
+/-- testing the first elements with plain `==` before comparing the window is NOT equivalent: object 0 is a NaN, the pattern
+`[0]` occurs in `[5, 0]` as the same object -/
+theorem first_element_pretest_wrong :
+    subSeqE (nanEq 1) [0] [5, 0] = true ∧ subSeqPre (nanEq 1) [0] [5, 0] = false := by
+  first | exact WindVerif.Generic.first_element_pretest_wrong .. | (apply WindVerif.Generic.first_element_pretest_wrong <;> assumption)
+
+/-- non-vacuity: objects 0 and 1 are NaNs (equal to nothing), 2.. are compared by value; an irreflexive, a non-symmetric
+relation; the hypotheses of `searchSubSeqE_spec` / `subSeqE_of_infix` / `searchSubSeqE_of_infix` on concrete inputs -/
+example : searchSubSeqE (nanEq 2) [0, 2] [0, 2, 1, 2, 0, 2] = .ok [(0, 2), (4, 6)] ∧
+    subSeqE (nanEq 2) [1, 2] [0, 2, 1, 2] = true ∧ subSeqE (nanEq 2) [1, 2] [0, 2, 0, 2] = false :=
+  ⟨by rfl, by decide, by decide⟩
+example : ([0, 2] : List Nat) ≠ [] ∧ ([0, 2, 1, 2, 0, 2] : List Nat) ≠ [] := by decide
+example : ([0] : List Nat) <:+: [5, 0] := ⟨[5], [], rfl⟩
+example : subSeqE (fun a b => decide (a < b)) [1, 2] [0, 2, 3] = true ∧
+    subSeqE (fun a b => decide (a < b)) [2, 3] [0, 1, 2] = false := by decide
+example : searchSubSeqE (nanEq 1) [] [0] = .error .valueError ∧ searchSubSeqE (nanEq 1) [0] [] = .error .valueError ∧
+    searchSubSeqE (nanEq 1) [0, 0] [0] = .ok [] := ⟨by rfl, by rfl, by rfl⟩
 
 end WindVerif.C19
